@@ -66,24 +66,28 @@ class SumDistinct(Aggregation):
 
 class First(Aggregation):
     pretty_name = "first"
-    _sentinel = object()
 
     def __init__(self, column, ignore_nulls):
         super().__init__(column)
         self.column = column
-        self.value = self._sentinel
+        # whether a value was seen is kept in a flag: the aggregation object is
+        # deep-copied per group, which would break an identity test on a sentinel
+        self.value = None
+        self.has_value = False
         self.ignore_nulls = ignore_nulls.get_literal_value()
 
     def merge(self, row, schema):
-        if self.value is First._sentinel or (self.ignore_nulls and self.value is None):
+        if not self.has_value or (self.ignore_nulls and self.value is None):
             self.value = self.column.eval(row, schema)
+            self.has_value = True
 
     def mergeStats(self, other, schema):
-        if self.value is First._sentinel or (self.ignore_nulls and self.value is None):
+        if other.has_value and (not self.has_value or (self.ignore_nulls and self.value is None)):
             self.value = other.value
+            self.has_value = True
 
     def eval(self, row, schema):
-        return self.value if self.value is not First._sentinel else None
+        return self.value
 
     def args(self):
         return (
@@ -94,22 +98,25 @@ class First(Aggregation):
 
 class Last(Aggregation):
     pretty_name = "last"
-    _sentinel = object()
 
     def __init__(self, column, ignore_nulls):
         super().__init__(column)
         self.column = column
         self.value = None
+        self.has_value = False
         self.ignore_nulls = ignore_nulls.get_literal_value()
 
     def merge(self, row, schema):
         new_value = self.column.eval(row, schema)
         if not (self.ignore_nulls and new_value is None):
             self.value = new_value
+            self.has_value = True
 
     def mergeStats(self, other, schema):
-        if not (self.ignore_nulls and other.value is None):
+        # a partial that saw no row must not overwrite the value
+        if other.has_value and not (self.ignore_nulls and other.value is None):
             self.value = other.value
+            self.has_value = True
 
     def eval(self, row, schema):
         return self.value
